@@ -882,19 +882,11 @@ func (sb *seqbag) Replace(old, new string, regex bool) (err error) {
 
 // Sorts sequences by name
 func (sb *seqbag) Sort() {
-	names := make([]string, len(sb.seqs))
-
-	// Get sequence names
-	for i, seq := range sb.seqs {
-		names[i] = seq.Name()
-	}
-
-	// Sort names
-	sort.Strings(names)
-	for i, n := range names {
-		s := sb.seqmap[n]
-		sb.seqs[i] = s
-	}
+	// Stable sort on the sequences themselves: sequences that have been
+	// given the same name are all kept, in their current relative order
+	sort.SliceStable(sb.seqs, func(i, j int) bool {
+		return sb.seqs[i].name < sb.seqs[j].name
+	})
 }
 
 /*
